@@ -181,6 +181,7 @@ func scanHTML(s string) *htmlScan {
 			for {
 				e := strings.Index(low[k:], "</"+tag.Name)
 				if e < 0 {
+					errf(i, "eof-in-%s-content", tag.Name) // the element is never closed (tree construction parse error)
 					r.RawText = append(r.RawText, struct{ Name, Text string }{tag.Name, s[i:]})
 					return r
 				}
